@@ -114,7 +114,7 @@ type GenesisConfig struct {
 func DefaultGenesisConfig() GenesisConfig {
 	return GenesisConfig{
 		NumUsers:          16,
-		NumFeeders:        2,
+		NumFeeders:        4,
 		GenesisTime:       time.Unix(1_750_000_000, 0).UTC(),
 		OraclePriceExpiry: 600,
 		OracleLifeBlocks:  200,
